@@ -3,7 +3,7 @@
    hypothesis of the corresponding _partial theorem (i.e. a proved theorem contradicted: never expected) *)
 From Coq Require Import List NArith ZArith Bool.
 From Dae Require Import C09_Spec C09_Model.
-From Dae.gen Require Import C09_Route.
+From Dae.gen Require Import C09_Route C09_TcpOwn.
 Import ListNotations.
 Open Scope N_scope.
 
@@ -415,13 +415,83 @@ Definition sig_flight (c : flight_case) : N * N * N * N :=
    flight_rcode (lc_leader c) (lc_pub c) (lc_up c)).
 
 (* ------------------------------------------------------------------------------------------- *)
+(* pipelined DNS-over-TCP fast path with a background refresh                                   *)
+(* ------------------------------------------------------------------------------------------- *)
+Record tcp_case := {
+  tc_queries : list tq;               (* the queries of one connection, in order; the first one's key is seeded *)
+  tc_ids : list N;
+  tc_sched : list tev;                (* the driven schedule *)
+  tc_serials : list (N * N);          (* canonical name -> serial of the upstream's answer *)
+  tc_seed_serial : N;                 (* serial of the entry seeded for the first query *)
+  tc_replies : list message;          (* replies read from the connection *)
+  tc_later : client_query;            (* another client asks afterwards *)
+  tc_later_reply : option message;
+  tc_cache_a : option (question * list rr)   (* entry under the first query's key at the end *)
+}.
+
+Definition is_trdone (r : trpc) : bool := match r with TRDone => true | _ => false end.
+
+Definition tcp_first (c : tcp_case) : question :=
+  match tc_queries c with x :: _ => tq_q x | [] => {| q_name := 0; q_case := 0; q_type := 0; q_class := 1 |} end.
+
+(* what the model expects under the first query's key: the question its entry answers and the records *)
+Definition tcp_expected_entry (c : tcp_case) : question * list rr :=
+  let qa := tcp_first c in
+  let s := trun tcp_fresh_msg_per_query qa (tc_queries c) [(key_of qa, qa)] (tc_sched c) in
+  let q := match klookup (key_of qa) (t_cache s) with Some q => q | None => qa end in
+  let serial := if existsb is_trdone (t_refresh s)
+                then match lookup (q_name q) (tc_serials c) with Some n => n | None => 0 end
+                else tc_seed_serial c in
+  ({| q_name := q_name q; q_case := 0; q_type := q_type q; q_class := 1 |},
+   [{| rr_name := q_name q; rr_type := q_type q; rr_serial := serial |}]).
+
+Definition entry_eqb (a b : question * list rr) : bool :=
+  question_eqb (fst a) (fst b) && list_eqb rr_eqb (snd a) (snd b).
+
+Definition check_tcp (c : tcp_case) : list N :=
+  let qa := tcp_first c in
+  let exp := tcp_expected_entry c in
+  let s := trun tcp_fresh_msg_per_query qa (tc_queries c) [(key_of qa, qa)] (tc_sched c) in
+  (if opt_eqb entry_eqb (Some exp) (tc_cache_a c)
+      && opt_eqb message_eqb
+           (Some {| m_id := cq_id (tc_later c); m_q := Some (fst exp); m_rcode := 0; m_tc := false; m_ans := snd exp |})
+           (tc_later_reply c)
+   then [] else [1])
+  ++ (if forallb2 (fun iq m => reply_ok {| cq_id := fst iq; cq_q := tq_q (snd iq) |} m)
+                  (zip (tc_ids c) (tc_queries c)) (tc_replies c)
+         && match tc_later_reply c with Some m => reply_ok (tc_later c) m | None => false end
+         && match tc_cache_a c with
+            | Some (q, ans) => question_equiv q qa && forallb (rr_answers qa) ans
+            | None => false
+            end
+      then [] else [2])
+  ++ (if tcache_ok (t_cache s) then [] else [3]).
+
+(* number of reads that happened before the refresh copied its message *)
+Fixpoint reads_before_copy (evs : list tev) : N :=
+  match evs with
+  | [] => 0
+  | TRefresh _ :: _ => 0
+  | TRead :: r => 1 + reads_before_copy r
+  | _ :: r => reads_before_copy r
+  end.
+
+Definition sig_tcp (c : tcp_case) : N * N * N * N :=
+  let qa := tcp_first c in
+  let s := trun tcp_fresh_msg_per_query qa (tc_queries c) [(key_of qa, qa)] (tc_sched c) in
+  (700 + N.of_nat (length (tc_queries c)),
+   N.of_nat (length (filter is_trdone (t_refresh s))),
+   reads_before_copy (tc_sched c),
+   if tcache_ok (t_cache s) then 0 else 1).
+
+(* ------------------------------------------------------------------------------------------- *)
 Inductive acase := AFwd (c : fwd_case) | APipe (c : pipe_case) | AUdp (c : udp_case) | ACtl (c : ctl_case)
-                 | AFcache (c : fcache_case) | AFlight (c : flight_case).
+                 | AFcache (c : fcache_case) | AFlight (c : flight_case) | ATcp (c : tcp_case).
 
 Definition check_case (a : acase) : list N :=
   match a with AFwd c => check_fwd c | APipe c => check_pipe c | AUdp c => check_udp c | ACtl c => check_ctl c
-          | AFcache c => check_fcache c | AFlight c => check_flight c end.
+          | AFcache c => check_fcache c | AFlight c => check_flight c | ATcp c => check_tcp c end.
 
 Definition case_signature (a : acase) : N * N * N * N :=
   match a with AFwd c => sig_fwd c | APipe c => sig_pipe c | AUdp c => sig_udp c | ACtl c => sig_ctl c
-          | AFcache c => sig_fcache c | AFlight c => sig_flight c end.
+          | AFcache c => sig_fcache c | AFlight c => sig_flight c | ATcp c => sig_tcp c end.
